@@ -1,6 +1,6 @@
 import Ucan.Gen.ChainTime
 import Ucan.Props.Tie.ChainDefs
-/-! Regenerated-code tie for `IsValidAt` (delegation, invocation) and `verifyTimeBoundAt` (C04). -/
+/-! Regenerated-code tie for `IsValidAt`, `IsValidNow` (delegation, invocation) and `verifyTimeBoundAt` (C04). -/
 set_option linter.unusedSimpArgs false
 set_option linter.unusedSectionVars false
 namespace Ucan.Tie
@@ -21,6 +21,17 @@ theorem Inv_IsValidAt_eq {X : Type} (x : X) (args : Node) (g : Gen.InvTok D C A)
   unfold Gen.Inv_IsValidAt Chain.Inv.validAt Chain.afterBound toInv
   cases he : g.expiration <;>
     simp [gand, notNil, deref, bind, Except.bind, pure, Except.pure] <;> grind
+
+/-- `IsValidNow` (both token types), regenerated: `IsValidAt` at the instant the clock shows — the model's `validAt` there -/
+theorem Dlg_IsValidNow_eq (undef : D) (pol) (g : Gen.DlgTok D S) (now : Int) :
+    Gen.Dlg_IsValidNow now g = pure ((toDlg undef pol g).validAt now) := by
+  unfold Gen.Dlg_IsValidNow
+  rw [Dlg_IsValidAt_eq undef pol g now]
+
+theorem Inv_IsValidNow_eq {X : Type} (x : X) (args : Node) (g : Gen.InvTok D C A) (now : Int) :
+    Gen.Inv_IsValidNow now g = pure ((toInv x args g).validAt now) := by
+  unfold Gen.Inv_IsValidNow
+  rw [Inv_IsValidAt_eq x args g now]
 
 /-- the loop of `verifyTimeBoundAt` from position `k` -/
 theorem verifyTime_loop (undef : D) (pol) (g : Gen.InvTok D C A) (ds : List (Gen.DlgTok D S)) (now : Int)
